@@ -574,8 +574,11 @@ class Context:
         :return: None.
         """
         # processes will be dealt in FAILED processing
-        status.state = SupvisorsInstanceStates.FAILED
-        self.export_status(status)
+        # NOTE: the notification may come late, when the Supvisors instance has already been invalidated
+        #       (e.g. several XML-RPC failures in a row, or a TICK timeout in the meantime)
+        if status.has_active_state():
+            status.state = SupvisorsInstanceStates.FAILED
+            self.export_status(status)
 
     def on_process_removed_event(self, status: SupvisorsInstanceStatus, event: Payload) -> None:
         """ Method called upon reception of a process removed event from the remote Supvisors instance.
